@@ -433,10 +433,18 @@ def rule_r7(chk, p, t):
         r.ok(pt.qualname, "no attribute of the scenario is written by propagateTo itself", pt.loc())
     # the step loop has no first-iteration special case
     loops = [n for n in walk_no_nested(pt.node) if isinstance(n, ast.For)]
-    if len(loops) == 1 and isinstance(loops[0].target, ast.Name) and not any(isinstance(x, ast.Name) and x.id == loops[0].target.id and isinstance(x.ctx, ast.Load) for x in ast.walk(loops[0])):
-        r.ok(pt.qualname + ":loop", "the loop variable is never read: every iteration is the same step", pt.loc(loops[0]))
+    if len(loops) == 1 and isinstance(loops[0].target, ast.Name):
+        var = loops[0].target.id
+        leak = []
+        for c in find_calls(loops[0], "stepForward"):
+            if any(isinstance(x, ast.Name) and x.id == var for x in ast.walk(c)):
+                leak.append(unparse(c))
+        if leak:
+            r.violation(pt.qualname + ":loop", "iteration-dependent-step", f"the loop counter flows into the step (`{leak[0]}`): steps of one call are not all alike", pt.loc())
+        else:
+            r.ok(pt.qualname + ":loop", "the loop counter never reaches stepForward: every iteration is the same step", pt.loc(loops[0]))
     else:
-        r.violation(pt.qualname + ":loop", "iteration-dependent-step", "the step loop reads its counter: steps of one call are not all alike", pt.loc())
+        r.violation(pt.qualname + ":loop", "iteration-dependent-step", "propagateTo has no single step loop", pt.loc())
 
 
 def run(chk, p, t):
